@@ -44,14 +44,19 @@ CH == Cmp("=", Path("h"), Val(":v"))
 VA == One(":v", S1(97))
 QueryT(t) == QueryOp("c1", t, NoIndex, CH, NoFilter, <<>>, VA, TRUE) @@ [kctext |-> KxH]
 ScanH(t) == ScanOp("c1", t, NoIndex, Cond(CH), <<>>, VA) @@ [filtertext |-> KxH]
+\* reads THROUGH A SECONDARY INDEX of tbl1 (a GSI on the table's own partition key): registrations are per table, so they decide here too
+GHX == Index("ghx")
+ScanIx(ast, text, vals) == ScanOp("c1", TA, GHX, Cond(ast), <<>>, vals) @@ [filtertext |-> text]
+QueryIx == QueryOp("c1", TA, GHX, CH, NoFilter, <<>>, VA, TRUE) @@ [kctext |-> KxH]
 Requests ==
      { PutT(t, x[1], x[2]) : t \in {TA, TB}, x \in { <<CAB, TxAB>>, <<CBA, TxBA>>, <<CAB, TxAB2>>, <<CAB, TxAB3>>, <<CAB, TxAB4>>, <<CABu, TxABu>>, <<COther, TxOther>> } }
   \cup { DelT(TA, CAB, TxAB), DelT(TA, CBA, TxBA) }
   \cup { UpdT(t, SetU("ab", Val(":v")), x) : t \in {TA, TB}, x \in {UxAB, UxAB2, UxAB3} } \cup { UpdT(TA, SetU("ba", Val(":v")), UxBA) }
   \cup { ScanT(TA, CAB, TxAB), ScanT(TA, CBA, TxBA), ScanT(TB, CAB, TxAB), ScanT(TA, CAB, TxAB2), ScanT(TA, CAB, TxAB4) }
   \cup { QueryT(TA), QueryT(TB), ScanH(TA) }
+  \cup { ScanIx(CAB, TxAB, VX), ScanIx(CAB, TxAB2, VX), ScanIx(CBA, TxBA, VX), ScanIx(CH, KxH, VA), QueryIx }
 SetupDef == (IF PreActivate THEN << [op |-> "NativeActivate", c |-> "c1"] >> ELSE <<>>)
-            \o << AddTable("c1", TA, "h", ""), AddTable("c1", TB, "h", ""), Put(TA, Item), Put(TB, Item) >>
+            \o << AddTable("c1", TA, "h", ""), AddIndex("c1", TA, "ghx", "h", ""), AddTable("c1", TB, "h", ""), Put(TA, Item), Put(TB, Item) >>
             \o (IF SwapFirst THEN << [op |-> "NativeSwap", c |-> "c1"] >> ELSE <<>>)
 MenuDef == SetToSeq(Regs) \o SetToSeq(Requests) \o << [op |-> "NativeActivate", c |-> "c1"], Put(TA, Item), Put(TB, Item) >>
 BoundDef(d) == TRUE
